@@ -344,6 +344,22 @@ func c10Run(t *rapid.T) {
 		if len(live) == 0 {
 			kind = kind % 3
 		}
+		// the embedded context.Context is an exported field: assigning it is legal. On a root it replaces what
+		// string-key misses fall through to; on a nested scope it has no effect on string keys (the chain of
+		// scopes is followed, not the embedded context)
+		if len(live) > 0 && uni(t, "embedop", 30) == 0 {
+			c := live[uni(t, "ctx", len(live))]
+			wv := drawVal(t, "wval")
+			hist = append(hist, fmt.Sprintf("ctx#%d.Context = ctx{w:%s}", c.id, wv))
+			c.real.Context = context.WithValue(context.Background(), "w", wv.real()) //nolint
+			if c.parent == nil {
+				c.wrapped = map[string]mval{"w": wv}
+				c.wrapCtx = nil
+			}
+			count("c10_embedded_context_assignments", 1)
+			checkAllMaybe()
+			continue
+		}
 		// size variation (thresholds: depth limits, small-scope storage that changes representation when
 		// it grows): rare, because a deep chain makes every later observation slower
 		if sizeHistory && len(live) > 0 && uni(t, "sizeop", 12) == 0 {
